@@ -67,6 +67,58 @@ def round32_bits(b: int) -> int:
     return f2bits(y)
 
 
+# ----------------------------------------------------------------------------------------------- temporal / decimal values
+# {"n": [kind, a, b]}: 0 date (a = days since 1970-01-01) · 1 naive datetime · 2 UTC-aware datetime (a = microseconds since the
+# epoch) · 3 time (a = microseconds since midnight) · 4 timedelta (a = microseconds) · 5 Decimal (a = coefficient, b = exponent)
+
+import datetime as _dt
+import decimal as _decimal
+
+_EPOCH = _dt.datetime(1970, 1, 1)
+_EPOCH_UTC = _dt.datetime(1970, 1, 1, tzinfo=_dt.timezone.utc)
+
+
+def _td_us(td: _dt.timedelta) -> int:
+    return (td.days * 86400 + td.seconds) * 1_000_000 + td.microseconds
+
+
+def native_to_py(kind: int, a: int, b: int) -> Any:
+    if kind == 0:
+        return _dt.date.fromordinal(a + 719163)
+    if kind == 1:
+        return _EPOCH + _dt.timedelta(microseconds=a)
+    if kind == 2:
+        return _EPOCH_UTC + _dt.timedelta(microseconds=a)
+    if kind == 3:
+        return (_dt.datetime(2000, 1, 1) + _dt.timedelta(microseconds=a)).time()
+    if kind == 4:
+        return _dt.timedelta(microseconds=a)
+    if kind == 5:
+        digits = tuple(int(c) for c in str(abs(a)))
+        return _decimal.Decimal((1 if a < 0 else 0, digits, b))
+    raise ValueError(kind)
+
+
+def native_to_j(v: Any) -> Any:
+    if isinstance(v, _dt.datetime):
+        if v.tzinfo is not None:
+            return {"n": [2, _td_us(v - _EPOCH_UTC), 0]}
+        return {"n": [1, _td_us(v - _EPOCH), 0]}
+    if isinstance(v, _dt.date):
+        return {"n": [0, v.toordinal() - 719163, 0]}
+    if isinstance(v, _dt.time):
+        return {"n": [3, ((v.hour * 60 + v.minute) * 60 + v.second) * 1_000_000 + v.microsecond, 0]}
+    if isinstance(v, _dt.timedelta):
+        return {"n": [4, _td_us(v), 0]}
+    if isinstance(v, _decimal.Decimal):
+        t = v.as_tuple()
+        if not isinstance(t.exponent, int):
+            return {"?": repr(v)}
+        coeff = int("".join(map(str, t.digits)) or "0")
+        return {"n": [5, -coeff if t.sign else coeff, t.exponent]}
+    return None
+
+
 # ----------------------------------------------------------------------------------------------- pools of Arrow objects
 
 SCHEMA_POOL: list[pa.Schema] = [
@@ -200,6 +252,8 @@ def to_py(node: Node, j: Any) -> Any:
     if "ao" in j:
         kind, i = j["ao"]
         return (SCHEMA_POOL if kind == 0 else BATCH_POOL)[i]
+    if "n" in j:
+        return native_to_py(*j["n"])
     if "l" in j:
         return [to_py(node.children[0], x) for x in j["l"]]
     if "fs" in j:
@@ -247,6 +301,18 @@ def to_j(v: Any, strict: bool = True) -> Any:
         return {"ao": [0, arrow_obj_id(0, v)]}
     if isinstance(v, pa.RecordBatch):
         return {"ao": [1, arrow_obj_id(1, v)]}
+    nat = native_to_j(v)
+    if nat is not None:
+        if not strict and nat.get("n", [None])[0] == 5:
+            # Decimal equality is numeric: strip trailing zeros of the coefficient
+            _k, a, b = nat["n"]
+            while a != 0 and a % 10 == 0:
+                a //= 10
+                b += 1
+            if a == 0:
+                b = 0
+            return {"n": [5, a, b]}
+        return nat
     if isinstance(v, list):
         return {"l": [to_j(x, strict) for x in v]}
     if isinstance(v, tuple):
